@@ -52,6 +52,15 @@ def run(repo, rep):
              'never served on another', 1)
     rep.rule('C09.N7', 'the set of supported transfer syntaxes the acceptor consults is exactly the configured one: the default '
              'set is substituted only when none was configured (None), never for an empty configuration', 1)
+    rep.rule('C09.N8', 'the proposed contexts are walked once: a one-shot iterator over them (a generator expression) is not handed to '
+             'anything else before the answering loop -- a consumer that runs first (formatting for a log record, a count) leaves the '
+             'loop nothing to answer', 1)
+    from ..pitfalls import oneshot_reuse
+    p8 = []
+    for hf in repo.helper_closure(f):
+        p8 += oneshot_reuse(repo, hf)
+    rep.check(not p8, 'C09.N8', 'asceprovider:AssociationAcceptor.accept:single-pass', f.loc(), 'no one-shot iterator over the proposal is '
+              'consumed twice', '; '.join(sorted(set(p8))))
     rep.rule('C09.N5', 'the reply repeats the request\'s AE titles (same-named fields) and application context item; user '
              'information is appended last', 1)
 
